@@ -599,3 +599,84 @@ pub open spec fn skipped_or_visited(g: Game, a: Cur, k: nat, tt: int, rt: int) -
         !(c.t == tt && c.r == rt) && cur_ok(g, c)
     }
 }
+
+// ---------- cur_rank is injective on valid cursors: every cursor of the scope is visited exactly once ----------
+
+pub proof fn lemma_div_unique(x: int, d: int, y: int, e: int, l: int)
+    requires 0 <= d < l, 0 <= e < l, x * l + d == y * l + e,
+    ensures x == y, d == e,
+{
+    assert(x == y) by (nonlinear_arith) requires 0 <= d < l, 0 <= e < l, x * l + d == y * l + e;
+    assert(d == e) by (nonlinear_arith) requires x == y, x * l + d == y * l + e;
+}
+
+pub proof fn lemma_radix_inj(a: Seq<int>, b: Seq<int>, lens: Seq<int>, n: int)
+    requires idx_ok(a, lens), idx_ok(b, lens), 0 <= n <= lens.len(), radix_val(a, lens, n) == radix_val(b, lens, n),
+    ensures forall|i: int| 0 <= i < n ==> a[i] == b[i],
+    decreases n
+{
+    if n > 0 {
+        assert(0 <= a[n - 1] < lens[n - 1] && 0 <= b[n - 1] < lens[n - 1]);
+        lemma_div_unique(radix_val(a, lens, n - 1), a[n - 1], radix_val(b, lens, n - 1), b[n - 1], lens[n - 1]);
+        lemma_radix_inj(a, b, lens, n - 1);
+    }
+}
+
+pub proof fn lemma_tri_mono(t1: int, t2: int)
+    requires 0 <= t1 <= t2 <= 48,
+    ensures tri(t1) <= tri(t2),
+    decreases t2 - t1
+{
+    if t1 < t2 {
+        lemma_tri_mono(t1, t2 - 1);
+    }
+}
+
+/// positions are ordered by their index: a smaller turn means a strictly smaller index
+pub proof fn lemma_tr_index_lt(t1: int, r1: int, t2: int, r2: int)
+    requires pos_ok(t1, r1), pos_ok(t2, r2), t1 < t2,
+    ensures tr_index(t1, r1) < tr_index(t2, r2),
+{
+    // tr_index(t1, r1) <= tri(t1) + (48 - t1 - 1) = tri(t1 + 1) - 1 < tri(t1 + 1) <= tri(t2) <= tr_index(t2, r2)
+    assert(tri(t1 + 1) == tri(t1) + (48 - t1));
+    lemma_tri_mono(t1 + 1, t2);
+}
+
+pub proof fn lemma_tr_index_inj(t1: int, r1: int, t2: int, r2: int)
+    requires pos_ok(t1, r1), pos_ok(t2, r2), tr_index(t1, r1) == tr_index(t2, r2),
+    ensures t1 == t2, r1 == r2,
+{
+    if t1 < t2 { lemma_tr_index_lt(t1, r1, t2, r2); }
+    if t2 < t1 { lemma_tr_index_lt(t2, r2, t1, r1); }
+}
+
+pub proof fn lemma_cur_rank_inj(p: Cur, q: Cur, lens: Seq<int>)
+    requires pos_ok(p.t, p.r), pos_ok(q.t, q.r), idx_ok(p.idx, lens), idx_ok(q.idx, lens), cur_rank(p, lens) == cur_rank(q, lens),
+    ensures p == q,
+{
+    let n = lens.len() as int;
+    let m = radix_prod(lens, n);
+    lemma_radix_bound(p.idx, lens, n);
+    lemma_radix_bound(q.idx, lens, n);
+    lemma_div_unique(tr_index(p.t, p.r), radix_val(p.idx, lens, n), tr_index(q.t, q.r), radix_val(q.idx, lens, n), m);
+    lemma_tr_index_inj(p.t, p.r, q.t, q.r);
+    lemma_radix_inj(p.idx, q.idx, lens, n);
+    assert(p.idx =~= q.idx);
+}
+
+/// C02 / C04 "every deal exactly once": if the orbit of succ from a runs for k steps inside the scope,
+/// then every valid cursor q whose rank lies in [rank(a), rank(a) + k) is one of those k cursors, at
+/// position rank(q) - rank(a), and no cursor occurs twice
+pub proof fn lemma_orbit_covers(g: Game, a: Cur, k: nat, tt: int, rt: int, q: Cur)
+    requires cur_ok(g, a) || (a.t == tt && a.r == rt), skipped_or_visited(g, a, k, tt, rt), cur_ok(g, q),
+        cur_rank(a, lens_of(g.entries)) <= cur_rank(q, lens_of(g.entries)) < cur_rank(a, lens_of(g.entries)) + k,
+    ensures q == adv(a, lens_of(g.entries), (cur_rank(q, lens_of(g.entries)) - cur_rank(a, lens_of(g.entries))) as nat),
+{
+    let lens = lens_of(g.entries);
+    let j = (cur_rank(q, lens) - cur_rank(a, lens)) as nat;
+    assert(skipped_or_visited(g, a, j, tt, rt));
+    lemma_adv_rank(a, lens, j, g, tt, rt);
+    let c = adv(a, lens, j);
+    assert(cur_ok(g, c));
+    lemma_cur_rank_inj(c, q, lens);
+}
